@@ -367,6 +367,7 @@ func tagQuery[K comparable](tags map[int64]*tagRow, keyOf func(*tagRow) K,
 // FindUsers returns a list of users who match given tags, such as "email:jdoe@example.com" or "tel:+18003287448".
 // Searching the 'users.Tags' for the given tags using respective index.
 func (a *adapter) FindUsers(uid t.Uid, req [][]string, opt []string, activeOnly bool) (_ []t.Subscription, err error) {
+	noteFindC19("FindUsers", req, opt, activeOnly) // zz_find_c19.go: argument log, no effect on the call
 	if err = a.begin("FindUsers"); err != nil {
 		return nil, err
 	}
@@ -435,6 +436,7 @@ func (a *adapter) FindUsers(uid t.Uid, req [][]string, opt []string, activeOnly 
 // FindTopics returns a list of topics with matching tags.
 // Searching the 'topics.Tags' for the given tags using respective index.
 func (a *adapter) FindTopics(req [][]string, opt []string, activeOnly bool) (_ []t.Subscription, err error) {
+	noteFindC19("FindTopics", req, opt, activeOnly) // zz_find_c19.go
 	if err = a.begin("FindTopics"); err != nil {
 		return nil, err
 	}
